@@ -86,6 +86,75 @@ def gen(tier, seed):
             joined, _ = render(p, at, chunks[i])
             calls = calls[:i] + [(chunks[i], rnd.randint(0, len(joined)))]
         cases.append(case_line(p, calls))
+    # long single writes (several KiB, many lines), all-ok and stopping short anywhere in the output
+    for k in range(12 if tier == "quick" else 120):
+        n = rnd.choice([4095, 4096, 4097, 8191, 8192, 8193, 9000, 12289]) if k < 8 else rnd.randint(3000, 14000)
+        text = bytes(rnd.choice(b"abcdefgh \n") for _ in range(n))
+        p = rnd.choice([b"> ", b"\t", b"    "])
+        pre = bytes(rnd.choice(b"ab\n") for _ in range(rnd.randint(0, 3)))
+        calls = [(pre, None)] if pre else []
+        at = True
+        for c, _ in calls:
+            _, at = render(p, at, c)
+        joined, _ = render(p, at, text)
+        if k % 3 == 0:
+            calls.append((text, None))
+            calls.append((b"x\ny", None))
+        else:
+            calls.append((text, rnd.randint(0, len(joined)) if k % 3 == 1 else rnd.randint(4000, len(joined))))
+        cases.append(case_line(p, calls))
+    # two writers stacked (the library's printers nest one per level): head through the lower writer, a fresh upper
+    # writer, every chunking of the text through it, a tail through the lower one
+    def op(which, chunk, acc=None):
+        return [which, lib.hexs(chunk), "ok" if acc is None else str(acc)]
+    for head in (b"", b"h", b"h\n"):
+        for n in range(0, 4 if tier == "quick" else 6):
+            for text in itertools.product(b"a\n", repeat=n):
+                text = bytes(text)
+                for p1, p2 in ((b"A>", b"B>"), (b"A>", b""), (b"", b"B>"), (b"-\n", b"B>")):
+                    if n > 3 and (p1, p2) != (b"A>", b"B>"):
+                        continue
+                    for chunks in histories(text, p2):
+                        for tail in (b"", b" t\nu"):
+                            toks = ["indent2", lib.hexs(p1), lib.hexs(p2)]
+                            if head:
+                                toks += op("L", head)
+                            toks += ["N"]
+                            for c in chunks:
+                                toks += op("U", c)
+                            if tail:
+                                toks += op("L", tail)
+                            cases.append(" ".join(toks))
+    for _ in range(1500 if tier == "quick" else 30000):
+        p1 = rnd.choice([b"A>", b"> ", b"", b"\n", b"  "])
+        p2 = rnd.choice([b"B>", b"\t", b"", b"-\n"])
+        toks = ["indent2", lib.hexs(p1), lib.hexs(p2)]
+        k = rnd.randint(1, 7)
+        at1 = at2 = True
+        for i in range(k):
+            r = rnd.random()
+            if r < 0.15:
+                toks += ["N"]
+                at2 = True
+                continue
+            which = "U" if r < 0.65 else "L"
+            chunk = bytes(rnd.choice(b"ab\n\n\xff") for _ in range(rnd.randint(0, 5)))
+            down = chunk
+            if which == "U":
+                down, at2 = render(p2, at2, chunk)
+            joined, nat1 = render(p1, at1, down)
+            if i == k - 1 and rnd.random() < 0.5:
+                toks += op(which, chunk, rnd.randint(0, len(joined)))
+            else:
+                toks += op(which, chunk)
+            at1 = nat1
+        cases.append(" ".join(toks))
+    # one-shot functions: String and Bytes on arbitrary bytes (invalid UTF-8 included) and long texts
+    for _ in range(600 if tier == "quick" else 6000):
+        n = rnd.randint(1, 30) if rnd.random() < 0.9 else rnd.randint(200, 3000)
+        text = bytes(rnd.choice(b"a\n\n\r\x80\xff\xc3\xa9\xe2\x82\xed\xa0\xf4\x90") for _ in range(n))
+        p = rnd.choice(PREFIXES[1:] + [b"\xff", b"\xc3\xa9 "])
+        cases.append("bytes %s %s" % (lib.hexs(p), lib.hexs(text)))
     # one-shot functions
     for n in range(0, 7):
         for text in itertools.product(b"a\n", repeat=n):
@@ -96,6 +165,8 @@ def gen(tier, seed):
 
 def nontrivial(c):
     t = c.split()
+    if t[0] == "indent2":
+        return t[1] != "-" and t[2] != "-" and "U" in t and "0a" in c
     if t[0] != "indent" or t[1] == "-":
         return False
     calls = (len(t) - 2) // 2
@@ -107,14 +178,19 @@ def run(res, tier, seed, proof):
     cases = gen(tier, seed)
     go, ml, mism = lib.diff_cases(res, cases)
     nt = len({c for c in cases if nontrivial(c)})
-    shorts = sum(1 for c in cases if c.startswith("indent") and c.split()[-1] != "ok")
+    shorts = sum(1 for c in cases if c.startswith("indent") and c.split()[-1] not in ("ok", "N"))
     cov = dict(
         evaluations=len(cases), distinct_nontrivial=nt,
         rule="exhaustive: texts over {a,LF} up to length %d x 5 prefixes (incl. empty and LF-containing) x all chunkings x "
-             "every stop point of every call; plus random longer histories; non-trivial = non-empty prefix, a line break in "
+             "every stop point of every call; plus random longer histories, single writes of 3-14 KiB, two stacked writers "
+             "(head / fresh upper writer / every chunking / tail, and random interleavings ending in a short write), and "
+             "String/Bytes on arbitrary bytes incl. invalid UTF-8; non-trivial = non-empty prefix, a line break in "
              "the text, and either >=2 Write calls or a short write" % (5 if tier == "quick" else 8),
         exhaustive=False, mismatches=mism,
-        distribution=dict(histories_ending_in_short_write=shorts, all_ok_histories=len(cases) - shorts),
+        distribution=dict(histories_ending_in_short_write=shorts, all_ok_histories=len(cases) - shorts,
+                          stacked_writer_histories=sum(1 for c in cases if c.startswith("indent2")),
+                          one_shot_cases=sum(1 for c in cases if c.startswith("bytes")),
+                          writes_longer_than_4KiB=sum(1 for c in cases if c.startswith("indent ") and len(c) > 8300)),
         samples=[cases[len(cases) // 3], cases[len(cases) // 2], cases[-300]],
         sample_observations=[go[len(cases) // 3], go[len(cases) // 2]],
     )
